@@ -201,7 +201,7 @@ DATE_FMTS = {2: "%y", 4: "%d%m", 5: "%H:%M", 6: "%d%m%y", 3: None, 1: None, 0: N
 
 def values_for(kind, size):
     """fitting and nearly-fitting values of several rendered widths"""
-    out = [None]
+    out = [None, codec.enc_val(float("nan")), {"nat": True}]  # every sort of missing marker, in every kind of field
     if kind == "int":
         for w in range(1, size + 2):
             out.append({"i": int("9" * w)})
@@ -253,7 +253,7 @@ def exhaustive_field_bin(maxstart, maxlen):
             vals = {
                 "int": [None, {"i": 0}, {"i": -1}, {"i": 2 ** (8 * size - 1) - 1}, {"i": -(2 ** (8 * size - 1))}, {"i": 258}],
                 "flt": [None, codec.enc_val(1.5), codec.enc_val(-0.0), codec.enc_val(65504.0), codec.enc_val(1e-7), codec.enc_val(float("nan"))],
-                "lit": [None, {"s": codec.enc_str("ab")}, {"s": codec.enc_str("")}, {"s": codec.enc_str("abc")}],
+                "lit": [None, {"s": codec.enc_str("ab")}, {"s": codec.enc_str("")}, {"s": codec.enc_str("abc")}, codec.enc_val(float("nan")), {"nat": True}],
                 "date": [None, codec.enc_val(datetime(2021, 2, 3))],
             }[kind]
             for v in vals:
